@@ -131,6 +131,11 @@ func init() {
 		// uint64 millisecond values themselves (finding F62)?
 		fmt.Fprintf(&b, "Definition gen_c12_strict_unsigned : bool := %v.\n", len(c12Calls(strict.Body, "Time")) == 0)
 
+		// ListKeyIDs: is the whole signatures object decoded, or only the named entity's entry?
+		lk := need(root.funcDecl("ListKeyIDs"), "ListKeyIDs")
+		fmt.Fprintf(&b, "Definition gen_c12_signatures_per_entry : bool := %v.\n",
+			!strings.Contains(strings.Join(strings.Fields(c12Str(lk.Body)), ""), "map[string]map[KeyID]json.RawMessage"))
+
 		// magic values
 		for _, n := range []string{"PublicKeyNotExpired", "PublicKeyNotValid"} {
 			e, _, _, _ := root.valueSpec(n)
